@@ -1,9 +1,10 @@
 from common import T_COMMON
 
 CFG = dict(
-    modules=["PolyVerif.Props.C06", "PolyVerif.Props.C06Scene"],
+    modules=["PolyVerif.Props.C06", "PolyVerif.Props.C06Scene", "PolyVerif.Props.C06Data"],
     # property theorems (audited); scene_* quantify over EVERY well-formed scene, gltf_* over every admissible write sequence
     theorems=["scene_inv", "scene_valid_low", "gltf_refs_in_range_partial", "gltf_node_trs",
+              "scene_dinv", "gltf_prims_consistent", "scene_prims_ok",
               "gltf_bytesWritten_eq_len", "gltf_views_tile", "gltf_accessor_fits", "gltf_minmax",
               "gltf_decode_image", "gltf_decode_indices", "gltf_index_width",
               "glb_frame_length", "glb_frame", "glb_frame_bin",
